@@ -165,8 +165,8 @@ def joseParseSigned (t : Token) (allowed : List String) : Go.R JWS :=
 
 /-- does key type fit the algorithm family (go-jose's own check, mirrored by `algToKeyType`) -/
 def algFits (kty : KeyType) (alg : String) : Bool :=
-  if alg.startsWith "RS" || alg.startsWith "PS" then kty == .rsa
-  else if alg.startsWith "ES" then kty == .ec
+  if Go.hasPrefix alg "RS" || Go.hasPrefix alg "PS" then kty == .rsa
+  else if Go.hasPrefix alg "ES" then kty == .ec
   else if alg == "EdDSA" then kty == .okp
   else false
 
